@@ -23,6 +23,8 @@ qualified); `WT d n t v` = `v` is a well-typed value of declared type `t` in can
 import FV.Model.Thrift
 import FV.Proofs.Thrift
 import FV.Proofs.ThriftBytes
+import FV.Proofs.ThriftFits
+import FV.Proofs.CompactBits
 
 namespace FV.C02
 open FV FV.Thrift
@@ -240,6 +242,15 @@ theorem c02_varint_roundtrip (n : Nat) (rest : Bytes) :
     (n < 4294967296 → readVarint32 (uvarint n ++ rest) = .ok (n, rest)) :=
   ⟨uvarintDec_uvarint n rest, readVarint64_uvarint n rest, readVarint32_uvarint n rest⟩
 
+/-- The arithmetic reading of the Go bit operations is itself proved where it matters most:
+`int32ToZigzag`'s `(n << 1) ^ (n >> 31)` (arithmetic shift) on 32-bit vectors is `zigzag n` for every
+int32 `n`; the varint loop's `n & 0x7F`, `(n & 0x7F) | 0x80`, `n >> 7` are `n % 128`, `n % 128 + 128`,
+`n / 128` for every `n`. -/
+theorem c02_zigzag_varint_bitops :
+    (∀ z : Int, -2147483648 ≤ z ∧ z < 2147483648 → (zigzag32bv (BitVec.ofInt 32 z)).toNat = zigzag z) ∧
+    (∀ n : Nat, n &&& 127 = n % 128 ∧ (n &&& 127) ||| 128 = n % 128 + 128 ∧ n >>> 7 = n / 128) :=
+  ⟨zigzag32bv_eq, varint_bitops⟩
+
 /-- Compact field header: whatever the previous field id of the struct (`r.last`), both forms — the
 one-byte `delta<<4 | type` when `0 < id - last ≤ 15`, and `type` followed by the zigzag-varint id
 otherwise (larger gap, descending or equal id) — are decoded to the type of the nibble and the id,
@@ -285,6 +296,40 @@ theorem c02_compact_roundtrip (d : Defs) (n : Nat) (t : Ty) (v : Val) (es : List
         decV d n t (es.map cmpErase) = .ok (v, []) :=
   compact_roundtrip d n t v es hwt henc hok hbal
 
+/-- The byte-level hypotheses are not extra assumptions about the emitted code: for every well-typed
+value that FITS (`Fits`: integers within their declared widths, enum values within int32, IEEE
+bits within 64 bits, string lengths and container sizes within `MaxMessageSize`, declared field ids
+within int16) the calls of the emitted `Write` fit the binary protocol, have the shape the compact
+protocol needs (a BOOL field holds exactly one bool, field types are real TTypes, struct ends
+match struct begins). -/
+theorem c02_write_calls_fit (d : Defs) (n : Nat) (t : Ty) (v : Val) (es : List Event)
+    (hwt : WT d n t v) (hfit : Fits d n t v) (henc : encV d n t v = .ok es) :
+    (∀ e ∈ es, BinFits e) ∧ CmpOK es ∧ cmpBalanced 0 es = true :=
+  (encV_chunk d n t v es hwt hfit henc).hyps
+
+/-- BINARY, value level: for every definitions table, type and well-typed value that fits, the
+emitted `Write` succeeds and its bytes through the binary protocol (followed by anything) are read
+back — by the protocol reads the emitted `Read` makes, then by the emitted `Read` — to the value. -/
+theorem c02_binary_roundtrip_values (d : Defs) (n : Nat) (t : Ty) (v : Val) (rest : Bytes)
+    (hwt : WT d n t v) (hfit : Fits d n t v) :
+    ∃ es, encV d n t v = .ok es ∧
+      binReads (es.map callOf) (binEnc es ++ rest) = .ok (es.map binErase, rest) ∧
+      decV d n t (es.map binErase) = .ok (v, []) := by
+  obtain ⟨es, henc⟩ := enc_total d n t v hwt
+  exact ⟨es, henc, binary_roundtrip d n t v es rest hwt henc (encV_chunk d n t v es hwt hfit henc).hyps.1⟩
+
+/-- COMPACT, value level (full): likewise through the stateful compact protocol, from the initial
+writer and reader states. -/
+theorem c02_compact_roundtrip_values (d : Defs) (n : Nat) (t : Ty) (v : Val)
+    (hwt : WT d n t v) (hfit : Fits d n t v) :
+    ∃ es bs w', encV d n t v = .ok es ∧ cmpEnc CW.init es = .ok (bs, w') ∧
+      ∀ rest : Bytes, ∃ r', cmpReads CR.init (es.map callOf) (bs ++ rest) = .ok (es.map cmpErase, rest, r') ∧
+        decV d n t (es.map cmpErase) = .ok (v, []) := by
+  obtain ⟨es, henc⟩ := enc_total d n t v hwt
+  have h := (encV_chunk d n t v es hwt hfit henc).hyps
+  obtain ⟨bs, w', hb, hr⟩ := compact_roundtrip d n t v es hwt henc h.2.1 h.2.2
+  exact ⟨es, bs, w', henc, hb, hr⟩
+
 /-! Non-vacuity of the byte-level hypotheses: the calls the emitted `Write` makes for `exVal`, and
 for a value with bool fields, an id gap > 15, a descending id, an i64 extreme and an empty map. -/
 def exDefs2 : Defs :=
@@ -304,5 +349,11 @@ example : ∃ es, encV exDefs2 8 (.struct "m/W") exVal2 = .ok es ∧ (∀ e ∈ 
 
 example : WT exDefs2 8 (.struct "m/W") exVal2 := by
   simp [WT, exDefs2, exVal2, resolve, resolveN, lookupStruct, normFields, lookupVal]
+
+example : Fits exDefs2 8 (.struct "m/W") exVal2 := by
+  simp [Fits, exDefs2, exVal2, resolve, resolveN, lookupStruct, lookupVal, maxMessageSize]
+
+example : Fits exDefs 8 (.struct "m/Outer") exVal := by
+  simp [Fits, exDefs, exVal, resolve, resolveN, lookupTypedef, lookupStruct, lookupVal, maxMessageSize]
 
 end FV.C02
